@@ -62,8 +62,9 @@ package dockerlog
 //@ func (*streamIter).Next
 //@   capture pn = call(i.parseNext, 0)
 //@   modifies *, readerPos(i.rd)
-//@   ensures[result-and-error-from-parse] pn_called && pn_a0 == r && ok == pn_r0 && i.err == pn_r1
-//@   ensures[record-carries-its-stream-labels] same(r.ResourceAttrs, old(i.resource)) && before(pn_called, same(r.ResourceAttrs, i.resource))
+//@   ensures[result-and-error-from-parse] old(i.err) == nil ==> pn_called && pn_a0 == r && ok == pn_r0 && i.err == pn_r1
+//@   ensures[record-carries-its-stream-labels] old(i.err) == nil ==> same(r.ResourceAttrs, old(i.resource)) && before(pn_called, same(r.ResourceAttrs, i.resource))
+//@   ensures[a-failed-stream-stays-failed] old(i.err) != nil ==> !ok && i.err == old(i.err)
 
 //@ func (*streamIter).Err
 //@   modifies nothing
